@@ -67,7 +67,10 @@ func acquireRealZstdWriter(w io.Writer, level int) *zstd.Encoder {
 	p := realZstdWriterPoolMap[nLevel]
 	v := p.Get()
 	if v == nil {
-		zw, err := zstd.NewWriter(w, zstd.WithEncoderLevel(zstd.EncoderLevel(nLevel)))
+		// The encoder must be synchronous: with concurrency > 1 it keeps writing
+		// compressed blocks to w from its own goroutines after Write has returned,
+		// while stackless.Writer flushes and recycles its buffer right after Write.
+		zw, err := zstd.NewWriter(w, zstd.WithEncoderLevel(zstd.EncoderLevel(nLevel)), zstd.WithEncoderConcurrency(1))
 		if err != nil {
 			panic(err)
 		}
